@@ -456,6 +456,26 @@ class GuardWalker:
             keep.append(f)
         return tuple(keep)
 
+    @staticmethod
+    def _atoms(test, pol):
+        """((test, pol), ...) plus what follows from it: the conjuncts of a
+        true `and`, the negated disjuncts of a false `or`, the operand of
+        `not` with flipped polarity"""
+        out = [(test, pol)]
+        work = [(test, pol)]
+        while work:
+            t, p_ = work.pop()
+            if isinstance(t, ast.BoolOp):
+                if (isinstance(t.op, ast.And) and p_) or \
+                        (isinstance(t.op, ast.Or) and not p_):
+                    for v in t.values:
+                        out.append((v, p_))
+                        work.append((v, p_))
+            elif isinstance(t, ast.UnaryOp) and isinstance(t.op, ast.Not):
+                out.append((t.operand, not p_))
+                work.append((t.operand, not p_))
+        return tuple(out)
+
     def _block(self, stmts, facts):
         """returns facts holding after the block (if it falls through)"""
         for st in stmts:
@@ -465,8 +485,8 @@ class GuardWalker:
     def _stmt(self, st, facts):
         self.visit(st, facts, tuple(self.try_stack))
         if isinstance(st, ast.If):
-            bf = self._block(st.body, facts + ((st.test, True),))
-            of = self._block(st.orelse, facts + ((st.test, False),))
+            bf = self._block(st.body, facts + self._atoms(st.test, True))
+            of = self._block(st.orelse, facts + self._atoms(st.test, False))
             b_exit = always_exits(st.body)
             o_exit = always_exits(st.orelse) if st.orelse else False
             if b_exit and o_exit:
@@ -481,7 +501,7 @@ class GuardWalker:
             inner = self._kill(inner, st)
             self.loop_depth += 1
             if isinstance(st, ast.While):
-                self._block(st.body, inner + ((st.test, True),))
+                self._block(st.body, inner + self._atoms(st.test, True))
             else:
                 self._block(st.body, inner)
             self.loop_depth -= 1
@@ -522,7 +542,8 @@ class GuardWalker:
                 after = self._kill(after, _Blk(st.finalbody))
             return after
         if isinstance(st, ast.Assert):
-            return self._dedupe(self._kill(facts, st) + ((st.test, True),))
+            return self._dedupe(self._kill(facts, st) +
+                                self._atoms(st.test, True))
         return self._kill(facts, st)
 
     @staticmethod
